@@ -482,7 +482,7 @@ class Generator:
         file = parts[0]
         hdr = "::".join(parts[1:]).strip() if len(parts) > 2 else parts[1]
         src = load_source(self.repo, file)
-        it, _ = rustlex.find_item(src, [hdr])
+        it, _ = rustlex.find_item(src, [hdr], first_ok=True)
         if it is None:
             raise LostAnchor("%s :: %s not found" % (file, hdr))
         s = src.sig
